@@ -262,6 +262,90 @@ class CliOptions(Stage):
         return res
 
 
+class CliPacing(Stage):
+    """keeping pace on the command line: main.py -p with its standard output on a pipe (as under `| tee`, `| grep`), fed one line
+    at a time by a producer that waits for the output of each line before it writes the next one. Output that only appears
+    once more input (or the end of input) has arrived was not "produced before the next line is read"."""
+    name = 'cli-pacing'
+
+    def examples(self, tier):
+        return 6 if tier == 'quick' else 14 * 12
+
+    def gen(self, d, tier):
+        specs = histgen.history(d, nconn=1, nmsg=d.int(2, 5), profile=PROFILE, tagged=False)
+        lines = []
+        for m in specs:
+            if d.chance(0.3):
+                lines.append(['chat', 'chatter %d' % d.int(0, 99)])
+            lines.append(['msg', wire.render(m, 'new')])
+        return dict(lines=lines, supress=d.chance(0.3), unbuffered_env=d.chance(0.3))
+
+    def execute(self, case):
+        import os, select, subprocess, time
+        from .. import cli
+        res = Result()
+        res.evals = 0
+        extra = {}
+        env = cli.base_env()
+        if not case.get('unbuffered_env'):
+            env.pop('PYTHONUNBUFFERED', None)      # the ordinary environment: Python block-buffers a standard output that is not a terminal
+        else:
+            env['PYTHONUNBUFFERED'] = '1'
+        argv = ['-C', '-p'] + (['--supress'] if case.get('supress') else [])
+        p = subprocess.Popen([cli.PY, cli.MAIN] + argv, stdin=subprocess.PIPE, stdout=subprocess.PIPE, stderr=subprocess.DEVNULL, env=env)
+        got = b''
+
+        def wait_for(pred, limit):
+            nonlocal got
+            t0 = time.time()
+            while not pred(got) and time.time() - t0 < limit:
+                r, _, _ = select.select([p.stdout], [], [], 0.05)
+                if r:
+                    chunk = os.read(p.stdout.fileno(), 65536)
+                    if not chunk:
+                        break
+                    got += chunk
+            return pred(got)
+        try:
+            expected_items = 0
+            late = None
+            for k, (kind, text) in enumerate(case['lines']):
+                p.stdin.write(text.encode() + b'\n')
+                p.stdin.flush()
+                if kind == 'msg' or not case.get('supress'):
+                    expected_items += 1
+                n = expected_items
+
+                def enough(buf, n=n):
+                    items = [l for l in buf.decode('utf-8', 'replace').split('\n')[:-1] if not session.NEW_LINE.match(l) and not session.SEP_LINE.match(l)]
+                    return len(items) >= n
+                res.evals += 1
+                if not wait_for(enough, 12.0):
+                    late = (k, text)
+                    break
+            p.stdin.close()
+            if late is not None:
+                # did it exist all along? With the input ended everything must come out at once
+                n = expected_items
+                wait_for(lambda buf: b'Closed ' in buf, 20.0)
+                items = [l for l in got.decode('utf-8', 'replace').split('\n')[:-1] if not session.NEW_LINE.match(l) and not session.SEP_LINE.match(l) and not session.CLOSED_LINE.match(l)]
+                if len(items) >= n:
+                    res.bad('cli:output-only-after-more-input', 'line %d %r: no output within 12 s while the producer waited; it appeared once the input ended (standard output %s)' % (
+                        late[0], late[1][:80], 'unbuffered by the environment' if case.get('unbuffered_env') else 'on a pipe, ordinary environment'))
+                else:
+                    res.label('timeout(inconclusive)')
+        finally:
+            try:
+                p.kill()
+            except Exception:
+                pass
+            p.wait()
+        res.nontrivial = len(case['lines']) >= 3
+        res.label('stdout-on-a-pipe')
+        res.sample = dict(lines=[t[:80] for _, t in case['lines'][:4]], supress=case.get('supress'))
+        return res
+
+
 class C08(Prop):
     id = 'C08'
     rule = ('generated well-formed message streams (both dialects) with non-message lines (chatter without timestamp-shaped token, blank and '
@@ -273,7 +357,7 @@ class C08(Prop):
             'and passed-through line counts vs the stream (non-trivial = >= 2 option words and >= 2 messages).')
     assumptions = ['New/Closed notices and time-gap separator lines are not items (C04, C16)',
                    'chatter contains no timestamp-shaped token, so it denotes no message by an independent definition']
-    stages = [Streams(), CliOptions()]
+    stages = [Streams(), CliOptions(), CliPacing()]
 
 
 PROP = C08()
